@@ -118,6 +118,10 @@ def rl1(ctx, R):
                 R.ok(key, fi.where(n), "open() as context manager: released by the with statement")
             elif fi.cls in owner_classes:
                 R.ok(key, fi.where(n), "open() inside a handle-owning class (ownership decided by the constructor scenarios below)")
+            elif any(isinstance(r, ast.Return) and r.value is n for r in walk_body(fi.node)) and ctx.callgraph().callers(fi.qual) and all(
+                    prog.functions[e.caller].cls in owner_classes for e in ctx.callgraph().callers(fi.qual)):
+                R.ok(key, fi.where(n), "the handle is returned to its only callers, methods of handle-owning classes (ownership decided by the "
+                     "constructor scenarios below)")
             else:
                 R.violation(key, fi.where(n), "open() outside the handle-owning classes %s: nothing pairs this handle with an owner field, so no close() "
                             "site is obliged to release it" % sorted(OWNERS))
@@ -183,8 +187,53 @@ def rl2(ctx, R):
     A = ctor_nodes[0]
     target = dotted(A.ast.targets[0])
 
+    def cm_closes(node, val):
+        """`with K(.., target, .., keep_open ..)` of a package context manager whose __exit__ always closes the field holding
+        `target` under what is known about keep_open: leaving the block (any way) closes; so does entering it when constructing
+        and entering the manager cannot fail (its __init__ / __enter__ only store and return)"""
+        from .region import ctor_fields
+        if node.kind not in ("with_exit", "with_enter"):
+            return False
+        e = node.ast.context_expr
+        if not (isinstance(e, ast.Call) and isinstance(e.func, (ast.Name, ast.Attribute))):
+            return False
+        K = prog.resolve_class(init.module, e.func)
+        if K is None or "__exit__" not in K.methods:
+            return False
+        kinit = K.methods.get("__init__")
+        cf = ctor_fields(K)
+        bound = {}
+        for pos, a in enumerate(e.args):
+            if pos in cf:
+                bound[cf[pos][0]] = a
+        for k in e.keywords:
+            for pos, (fld, pn) in cf.items():
+                if k.arg == pn:
+                    bound[fld] = k.value
+        tf = [f for f, a in bound.items() if dotted(a) == target]
+        if not tf:
+            return False
+        facts = {}
+        for f, a in bound.items():
+            if isinstance(a, ast.Name) and a.id == "keep_open":
+                facts["self." + f] = val
+            elif isinstance(a, ast.Constant) and isinstance(a.value, bool):
+                facts["self." + f] = a.value
+        xf = K.methods["__exit__"]
+        xcfg = ctx.cfg(xf)
+        ok, _w = xcfg.always_passes(xcfg.entry, lambda n: _node_has_call(n, lambda c: call_name(c) in ["self.%s.close" % f for f in tf]),
+                                    targets={xcfg.exit}, assume=assume_from(facts), follow_exc=False)
+        if not ok:
+            return False
+        if node.kind == "with_exit":
+            return True
+        simple = lambda f: f is None or all(isinstance(st, (ast.Assign, ast.Return, ast.Pass, ast.Expr)) and not any(isinstance(x, ast.Call) for x in ast.walk(st))
+                                            for st in f.node.body)
+        return simple(kinit) and simple(K.methods.get("__enter__"))
+    _val = [None]
+
     def closes(node):
-        return _node_has_call(node, lambda c: call_name(c) == target + ".close")
+        return _node_has_call(node, lambda c: call_name(c) == target + ".close") or cm_closes(node, _val[0])
     defaults = init.defaults
     if "keep_open" not in init.params:
         raise AnchorMissing("tdms.TdmsFile.__init__ parameter keep_open")
@@ -229,6 +278,7 @@ def rl2(ctx, R):
         # if the constructor call itself raises no reader exists (its own handles: RL8);
         # the obligation starts at the normal successors of the assignment
         ok, wit = True, None
+        _val[0] = val
         for succ, kind in A.succ:
             if kind in ("exc", "uncaught"):
                 continue
